@@ -727,6 +727,11 @@ func typeOfFn(x ast.ApplyFn, varRanges map[ast.Variable]ast.BaseTerm, nameTrie s
 				return ast.ApplyFn{symbols.ListType, []ast.BaseTerm{varRanges[v]}}
 			}
 		}
+		if len(x.Args) > 1 {
+			// Several arguments are collected as tuples.
+			tupleTpe := boundOfArg(ast.ApplyFn{symbols.Tuple, x.Args}, varRanges, nameTrie)
+			return ast.ApplyFn{symbols.ListType, []ast.BaseTerm{tupleTpe}}
+		}
 		elemTpe := boundOfArg(x.Args[0], varRanges, nameTrie)
 		return ast.ApplyFn{symbols.ListType, []ast.BaseTerm{elemTpe}}
 	}
